@@ -4,6 +4,7 @@ import (
 	"github.com/LemoFoundationLtd/lemochain-core/chain/deputynode"
 	"github.com/LemoFoundationLtd/lemochain-core/common"
 	"github.com/LemoFoundationLtd/lemochain-core/common/crypto"
+	"sync"
 )
 
 // cache confirm to save CPU. This confirm may not be used at last
@@ -12,8 +13,14 @@ var sigCache struct {
 	Sig  []byte
 }
 
+// SignBlock is called from the chain lock holders, from the confirm goroutines and from the RPC
+var sigCacheMu sync.Mutex
+
 // SignBlock sign a block hash by node key
 func SignBlock(blockHash common.Hash) ([]byte, error) {
+	sigCacheMu.Lock()
+	defer sigCacheMu.Unlock()
+
 	if sigCache.Hash == blockHash {
 		return sigCache.Sig, nil
 	}
